@@ -491,7 +491,7 @@ static int do_run(const std::string& family, uint64_t index, int tier, uint64_t 
 {
 	const Family* f = find_family(family);
 	if (!f) { fprintf(stderr, "unknown family\n"); return 2; }
-	uint64_t seed = run_seed_of(base, family, index);
+	uint64_t seed = getenv("SNAPSIM_PLANSEED") ? strtoull(getenv("SNAPSIM_PLANSEED"), 0, 10) : run_seed_of(base, family, index); // a seed quoted in evidence or a report
 	RunPlan p = f->gen(seed, tier);
 	if (verbose) printf("%s\n", p.to_json().dump(1).c_str());
 	double t0 = now_wall();
